@@ -4,6 +4,6 @@ mkdir -p /tmp/seedchk
 for item in "$@"; do
   set -- $item
   echo "=== $item $(date +%H:%M:%S)" >> /tmp/seedchk/log
-  python3 /verif/tools/seedcheck.py $1 $2 $3 $4 >> /tmp/seedchk/log 2>&1
+  python3 $(dirname $0)/seedcheck.py $1 $2 $3 $4 >> /tmp/seedchk/log 2>&1
 done
 echo "=== BATCH DONE $(date +%H:%M:%S)" >> /tmp/seedchk/log
